@@ -15,10 +15,11 @@ Lemma gen_accept_counts : accept_qd = 1 /\ accept_an_max = 1 /\ accept_ns_max = 
 Proof. repeat split; reflexivity. Qed.
 
 (* the library constants the model writes out are the ones the code names *)
+(* type_rrsig (46) is no longer pinned here: dnsutil.ClearDNSSEC is translated as a whole (Proofs_strip.v) *)
 Lemma gen_lib_consts :
   min_msg_size = lib_min_msg_size /\ max_msg_size = lib_max_msg_size /\ rcode_badvers = lib_rcode_badvers
   /\ rcode_notimp = lib_rcode_notimp /\ rcode_formerr = lib_rcode_formerr /\ lib_reject_default_rcode = rcode_formerr
-  /\ type_rrsig = lib_type_rrsig /\ code_cookie = lib_code_cookie /\ code_nsid = lib_code_nsid
+  /\ code_cookie = lib_code_cookie /\ code_nsid = lib_code_nsid
   /\ code_keepalive = lib_code_keepalive /\ lib_code_keepalive_wire = lib_code_keepalive.
 Proof. repeat split; reflexivity. Qed.
 
